@@ -50,6 +50,9 @@ func c10Emit(ctx context.Context, kind string, seq int, pad string) (string, err
 		want := map[string]interface{}{"seq": seq, "_meta": map[string]interface{}{"k": tag}}
 		err := ns.SendCustomNotification("notifications/custom", map[string]interface{}{"seq": seq, "_meta": map[string]interface{}{"k": tag}})
 		return hx.CanonOf(want), err
+	case "generic": // the sender's generic entry point with a ready-made notification
+		err := ns.SendNotification(mcp.NewNotification("notifications/custom", map[string]interface{}{"seq": seq, "g": tag}))
+		return hx.CanonOf(map[string]interface{}{"seq": seq, "g": tag}), err
 	case "meta-only": // nothing but _meta
 		err := ns.SendCustomNotification("notifications/custom", map[string]interface{}{"_meta": map[string]interface{}{"k": tag, "seq": seq}})
 		return hx.CanonOf(map[string]interface{}{"_meta": map[string]interface{}{"k": tag, "seq": seq}}), err
@@ -121,9 +124,9 @@ func c10Cases(tier string) []c10Case {
 			out = append(out, c10Case{mode, []string{k}, 7, 65537}, c10Case{mode, []string{k, k}, 7, 65537})
 		}
 		// parameter / _meta values of other Go types that encode to the same JSON
-		for _, k := range []string{"meta-only", "empty-params", "meta-typed", "meta-strmap", "meta-struct", "params-typed"} {
+		for _, k := range []string{"generic", "meta-only", "empty-params", "meta-typed", "meta-strmap", "meta-struct", "params-typed"} {
 			for _, reg := range []int{0, 4, 7} {
-				out = append(out, c10Case{mode, []string{k}, reg, 0}, c10Case{mode, []string{"progress", k, "meta"}, reg, 0})
+				out = append(out, c10Case{mode, []string{k}, reg, 0}, c10Case{mode, []string{"progress", k, "meta"}, reg, 0}, c10Case{mode, []string{k, k, k}, reg, 0})
 			}
 		}
 	}
